@@ -8,7 +8,7 @@ ROOT = os.path.dirname(os.path.dirname(os.path.abspath(__file__)))
 
 
 def run_all(repo, lean_dir, gen_dir):
-    from . import syntaxkind, keywords, recovery, facts
+    from . import syntaxkind, keywords, recovery, facts, nodeclasses
     errors = {}
     G = os.path.join(lean_dir, "PsycheModel", "Generated")
     jobs = [
@@ -16,6 +16,7 @@ def run_all(repo, lean_dir, gen_dir):
         ("keywords", lambda: keywords.main(repo, os.path.join(G, "Keywords.lean")), ["Keywords.lean"]),
         ("recovery", lambda: recovery.main(repo, os.path.join(G, "Recovery.lean")), ["Recovery.lean"]),
         ("facts", lambda: facts.main(repo, os.path.join(G, "Facts.lean")), ["Facts.lean"]),
+        ("nodeclasses", lambda: nodeclasses.main(repo, os.path.join(G, "NodeClasses.lean"), os.path.join(gen_dir, "node_classes.inc")), ["NodeClasses.lean"]),
     ]
     for name, fn, files in jobs:
         try:
@@ -26,6 +27,10 @@ def run_all(repo, lean_dir, gen_dir):
                 subprocess.run(["git", "checkout", "--", os.path.relpath(os.path.join(G, f), ROOT)], cwd=ROOT,
                                stdout=subprocess.DEVNULL, stderr=subprocess.DEVNULL)
     os.makedirs(gen_dir, exist_ok=True)
+    if "nodeclasses" in errors:
+        # the harness includes the class table: fall back to the committed last-known-good copy (C14 reports the translator's failure)
+        import shutil
+        shutil.copyfile(os.path.join(ROOT, "harness", "node_classes.fallback.inc"), os.path.join(gen_dir, "node_classes.inc"))
     with open(os.path.join(gen_dir, "translator_errors.json"), "w") as f:
         json.dump(errors, f)
     return errors
